@@ -4,7 +4,7 @@ pub fn run(tier: Tier) -> i32 {
     crate::props::c01::run_shared(
         "C02",
         tier,
-        &["P", "S", "T", "E-small", "E-wide", "X"],
+        &["P", "S", "T", "E-small", "E-wide", "X", "A"],
         vec!["where an out-of-range index and a failing assigned value coincide in one assignment either panic is accepted (DESIGN.md E3 ambiguity rule); MIN % -1 accepts both outcomes".into()],
     )
 }
